@@ -43,6 +43,13 @@ CHECKS = {
         note="Trusted: TLC, exact-rational projection, pde's grid.distance as the definition of the periodic metric. Tie-breaking among equal radii is not fixed by the property: a different survivor among tied droplets is a deviation, not a violation. get_neighbor_distances(subtract_radius=True) judged only for tied radii (see DESIGN).",
         ref="§3 C10",
     ),
+    "C15": dict(
+        level="model_checking",
+        technique="TLA+ spec Parallel.tla (executor.map as Take/Finish/Yield with W workers, None-filter) model-checked by TLC over all interleavings; every complete schedule forced in real ProcessPoolExecutors (spec->code) and the workers' start/end logs validated by TraceParallel.tla (code->spec)",
+        text="TLC checks TypeOK, OrderPreserved, PrefixAlways, Deterministic, OnceEach, OutGrows and Termination for N<=6 tasks on W<=4 workers with sets of None results, over every interleaving. Each complete schedule (completion order) found by TLC is forced in a real process pool by gating task completion on marker files; locate_droplets(refine=True, num_processes=W|'auto') on fields with N droplets (plain, diffuse, perturbed candidates, periodic/non-periodic, a droplet cut by the boundary, forced None results) and EmulsionTimeCourse.from_storage(num_processes=W, progress=None|True|False, refine on/off) on N distinct frames must return results bit-identical (data bytes, dtype, class, order, times) to the serial run; serial runs are repeated and must be identical. The recorded start/end logs are accepted by TraceParallel.tla only if they are behaviours of the spec and the caller's output is the spec's.",
+        note="Trusted: TLC, fork start method (wrappers inherited by workers), FIFO call queue of the executor. Runs whose recorded completion order is not the intended one are not judged (count in evidence). Exhaustive in schedules for the stated (N, W); inputs are a fixed family of scenarios.",
+        ref="§3 C15",
+    ),
     "C20": dict(
         level="model_checking",
         technique="TLA+ spec Collections.tla (heap of droplet/Emulsion/EmulsionTimeCourse/DropletTrack objects with explicit identity; one action per public call) model-checked by TLC over all operation sequences up to the stated depth; every transition of the state graph replayed on real objects (spec->code) with full state, aliasing and query comparison",
